@@ -228,6 +228,13 @@ def c13(tier):
                     js += with_witness(j, tier=t)
                 else:
                     js.append(j)
+    # deep pairs restricted to pentagon parents (where the offsets differ from plain base-7 arithmetic)
+    for (p, c, t) in ((0, 12, "quick"), (0, 15, "quick"), (3, 15, "quick"), (1, 12, "thorough"), (2, 14, "thorough"), (0, 9, "thorough")):
+        dd = c - p
+        us = {"_ipow.0": 6, "childPosToCell.0": dd + 2, "childPosToCell.1": dd + 2, "cellToChildPos.0": dd + 2, "cellToChildPos.1": dd + 2, "cellToParent.0": c + 2}
+        for mode in ("FWD", "BWD"):
+            js.append(J("%spent_%d_%d" % (mode.lower(), p, c), "C13_childpos.c", ["-D" + mode, "-DPENTONLY", "-DPRES=%d" % p, "-DCRES=%d" % c], unwind=17, us=us, est=300, tier=t, timeout=1500, core=False, mem="M",
+                        bound="pentagon parents only, parentRes=%d childRes=%d" % (p, c)))
     for p in (0, 3, 9, 15):
         js += with_witness(J("err_%d" % p, "C13_childpos.c", ["-DERR", "-DPRES=%d" % p], unwind=17, us={"_ipow.0": 6}, est=20, bound="all int resolutions and positions, parents of res %d" % p))
     return js
@@ -412,8 +419,8 @@ C12_LOOPS = {"cellToLocalIjk.0": 7, "cellToLocalIjk.1": 7, "cellToLocalIjk.2": 7
 
 @prop("C12",
       functions=["every exported function listed in the job names; internal NEVER/ALWAYS/assert sites become proof obligations (build without NDEBUG)"],
-      bounds={"quick": "arbitrary 64-bit words / ints / int64 / doubles. Single-word integer APIs: all 2^64 words. APIs walking the digits (disks k<=1, pairs, local IJ): words whose resolution field is 0,1,2 (every other bit arbitrary, incl. invalid digits, modes, base cells 122-127). compactCells: 3 arbitrary words; uncompactCells: 2 words, <= 14 outputs; cellToChildren: one level",
-              "thorough": "digit-walking APIs at resolution fields 0-5 and 15; compactCells 4 words"},
+      bounds={"quick": "arbitrary 64-bit words / ints / int64 / doubles. Single-word integer APIs: all 2^64 words. APIs walking the digits (disks k<=1, pairs, local IJ): words whose resolution field is 0 or 1 (every other bit arbitrary, incl. invalid digits, modes, base cells 122-127). compactCells: 3 arbitrary words; uncompactCells: 2 words, <= 14 outputs; cellToChildren: one level",
+              "thorough": "digit-walking APIs at resolution fields 0-5 and 15"},
       outside="k >= 2, larger sets, deeper children; every API that reaches trigonometry or the FP cell-boundary code (latLngToCell beyond argument validation, cellToLatLng, cellToBoundary, vertexToLatLng, areas, edge lengths, polygon functions, cellsToLinkedMultiPolygon): their integer prefixes are covered by C02/C03/C19 jobs, the FP kernels are not decided",
       assumptions=["malloc does not fail in these jobs (allocation failure is C17)", "S-TRIG stubs for greatCircleDistance*"],
       stubs=["sin, cos, asin, ... -> S-TRIG (GCDIST job only)"])
@@ -429,20 +436,25 @@ def c12(tier):
     js += [ub("cellToChildPos", ["-DCHILDPOS"], est=200, mem="M", timeout=1800, bound="all 2^64 words x all ints")]
     js += [ub("childPosToCell", ["-DPOSCHILD"], est=200, mem="M", timeout=1800, bound="all 2^64 words x all ints x all int64")]
     js += with_witness(ub("cellToChildren", ["-DCHILDREN"], us=dict(C12_LOOPS, **{"cellToChildren.0": 9, "iterStepChild.0": 18}), est=60, mem="M", bound="all words, one level"))
-    js += with_witness(ub("uncompact", ["-DUNCOMPACT"], us=dict(C12_LOOPS, **{"uncompactCells.0": 9, "uncompactCells.1": 4, "uncompactCellsSize.0": 4, "iterStepChild.0": 18}), est=120, mem="M", timeout=1800, bound="2 arbitrary words, <= 14 outputs"))
+    for cap in (0, 1, 7, 13, 14):
+        j = ub("uncompact_cap%d" % cap, ["-DUNCOMPACT", "-DCAPV=%d" % cap], us=dict(C12_LOOPS, **{"uncompactCells.0": 9, "uncompactCells.1": 4, "uncompactCellsSize.0": 4, "iterStepChild.0": 18}), est=120, mem="M", timeout=1800, bound="2 arbitrary words, <= 14 outputs, capacity %d" % cap)
+        js += with_witness(j) if cap == 7 else [j]
     js += [ub("compact_3", ["-DCOMPACT", "-DNW=3"], unwind=17, us=dict(C12_LOOPS, **{"compactCells.0": 5, "compactCells.1": 5, "compactCells.2": 5, "compactCells.3": 5, "compactCells.4": 5, "compactCells.5": 5, "compactCells.6": 3}), est=120, mem="M", timeout=1800, bound="3 arbitrary words")]
     js += [ub("gcdist", ["-DGCDIST"], est=20, bound="all doubles (S-TRIG)")]
-    qres = (0, 1, 2)
-    tres = (3, 4, 5, 15)
+    qres = (0, 1)
+    tres = (2, 3, 4, 5, 15)
     for r in qres + tres:
         t = "quick" if r in qres else "thorough"
         for fn, nm in enumerate(("gridDisk", "gridDiskDistances", "gridDiskDistancesSafe", "gridDiskUnsafe", "gridDiskDistancesUnsafe", "gridRingUnsafe")):
-            js.append(ub("%s_r%d" % (nm, r), ["-DDISK", "-DFN=%d" % fn, "-DRES=%d" % r], unwind=max(r + 2, 4), est=150 + 60 * r, mem="M", tier=t, timeout=2400, bound="words with resolution field %d, k <= 1" % r))
+            for kk in (-1, 0, 1):  # kneg = the concrete value -1
+                if kk < 1 and r > 0:
+                    continue
+                js.append(ub("%s_r%d_k%s" % (nm, r, "neg" if kk < 0 else kk), ["-DDISK", "-DFN=%d" % fn, "-DRES=%d" % r, "-DKK=%d" % kk], unwind=max(r + 2, 4), est=150 + 60 * r, mem="M", tier=t, timeout=2400, bound="words with resolution field %d, k %s" % (r, "< 0" if kk < 0 else "= %d" % kk)))
         for fn, nm in enumerate(("areNeighborCells", "cellsToDirectedEdge", "getDirectedEdgeDestination", "directedEdgeToCells", "gridDistance", "cellToLocalIj")):
-            js.append(ub("%s_r%d" % (nm, r), ["-DPAIR", "-DFN=%d" % fn, "-DRES=%d" % r], unwind=(17 if fn in (0, 4, 5) else max(r + 2, 4)), est=150 + 60 * r, mem="M", tier=t, timeout=2400, bound="first word with resolution field %d, second arbitrary" % r))
+            js.append(ub("%s_r%d" % (nm, r), ["-DPAIR", "-DFN=%d" % fn, "-DRES=%d" % r], unwind=max(r + 2, 4), est=150 + 60 * r, mem="M", tier=t, timeout=2400, bound="first word with resolution field %d, second arbitrary" % r))
         js.append(ub("localIjToCell_r%d" % r, ["-DIJ2CELL", "-DRES=%d" % r], unwind=r + 2, est=150 + 60 * r, mem="M", tier=t, timeout=2400, bound="origin word with resolution field %d, all int32 i,j, all modes" % r))
-    js += with_witness(ub("gridDisk_r1", ["-DDISK", "-DFN=0", "-DRES=1"], unwind=4, est=100, mem="M"))[1:]
-    js += with_witness(ub("areNeighborCells_r1", ["-DPAIR", "-DFN=0", "-DRES=1"], unwind=17, est=100, mem="M"))[1:]
+    js += with_witness(ub("gridDisk_r1_k1", ["-DDISK", "-DFN=0", "-DRES=1", "-DKK=1"], unwind=4, est=100, mem="M"))[1:]
+    js += with_witness(ub("areNeighborCells_r1", ["-DPAIR", "-DFN=0", "-DRES=1"], unwind=4, est=100, mem="M"))[1:]
     return js
 
 
